@@ -88,4 +88,3 @@ macro_rules! with_prop {
     };
 }
 
-pub const CLAIMED: [&str; 2] = ["C18", "C19"];
